@@ -58,9 +58,17 @@ structure JC where
   lastScheduled : Option Int
   deriving Repr, Inhabited
 
-/-- `getNext`: `expr.Next(fromTime)` cut by `notAfter` (`next.After(naf)` ⇒ zero). -/
-def getNext (nxt : Int → Option Int) (notAfter : Option Int) (fromNs : Int) : Option Int :=
-  match nxt (floorSec fromNs) with
+/-- the lower bound applied at the head of `getNext`: a reference time before `notBefore` is
+replaced by `notBefore − 1ns` (so that a match exactly on `notBefore` is included). -/
+def applyNotBefore (notBefore : Option Int) (fromNs : Int) : Int :=
+  match notBefore with
+  | some nbf => if fromNs < nbf * 1000000000 then nbf * 1000000000 - 1 else fromNs
+  | none => fromNs
+
+/-- `getNext`: `notBefore` lower bound, `expr.Next(fromTime)`, cut by `notAfter`
+(`next.After(naf)` ⇒ zero). -/
+def getNext (nxt : Int → Option Int) (notBefore notAfter : Option Int) (fromNs : Int) : Option Int :=
+  match nxt (floorSec (applyNotBefore notBefore fromNs)) with
   | none => none
   | some n =>
     match notAfter with
@@ -95,7 +103,7 @@ def newItem (jc : JC) (cfgDowntime defaultDowntime now : Int) : Except Unit (Opt
   else if jc.sched.parseErr then .error ()
   else
     let from_ := initialTime jc cfgDowntime defaultDowntime now
-    match getNext jc.nxt jc.sched.notAfter from_ with
+    match getNext jc.nxt jc.sched.notBefore jc.sched.notAfter from_ with
     | none => .ok none
     | some n => .ok (some (jc.key, n))
 
@@ -132,7 +140,7 @@ def schedBump (pq : Heap.PQ) (jc : JC) (fromNs : Int) : Heap.PQ × Bool :=
   if !jc.sched.enabled then (schedDelete pq jc.key, false)
   else if jc.sched.parseErr then (pq, true)
   else
-    match getNext jc.nxt jc.sched.notAfter fromNs with
+    match getNext jc.nxt jc.sched.notBefore jc.sched.notAfter fromNs with
     | none => (schedDelete pq jc.key, false)
     | some n =>
       if !(n * 1000000000 > fromNs) then (pq, true)
@@ -173,16 +181,21 @@ def incCount (c : List (String × Nat)) (k : String) : List (String × Nat) :=
   | [] => [(k, 1)]
   | (k', n) :: rest => if k' = k then (k', n + 1) :: rest else (k', n) :: incCount rest k
 
-/-- `refreshUpdatedJobConfigs(now)`: at most `limit` (=1000) flushes; each is Delete then Bump(now). -/
-def refresh (heap : Heap.PQ) (chan : List JC) (now : Int) : Nat → Heap.PQ × List JC
+/-- `refreshUpdatedJobConfigs(now)`: at most `limit` (=1000) flushes; each is Delete, then
+Bump(now) of the version the lister currently holds (nothing is added back for a JobConfig that
+is no longer in the cache). -/
+def refresh (heap : Heap.PQ) (lister : List (String × JC)) (chan : List JC) (now : Int) :
+    Nat → Heap.PQ × List JC
   | 0 => (heap, chan)
   | limit + 1 =>
     match chan with
     | [] => (heap, [])
     | jc :: rest =>
       let h1 := schedDelete heap jc.key
-      let h2 := (schedBump h1 jc now).1
-      refresh h2 rest now limit
+      let h2 := match lookup lister jc.key with
+        | none => h1
+        | some cur => (schedBump h1 cur now).1
+      refresh h2 lister rest now limit
 
 /-- outcome of `syncOne` on the heap, counters and emitted request -/
 def syncOne (heap : Heap.PQ) (lister : List (String × JC)) (now : Int) (key : String) (ts : Int)
@@ -197,25 +210,39 @@ def syncOne (heap : Heap.PQ) (lister : List (String × JC)) (now : Int) (key : S
       let counts' := incCount counts key
       ((schedBump heap jc (ts * 1000000000)).1, counts', some (key, ts))
 
-/-- the pop loop of `Work`; `clk i` is the reading of `Clock.Now()` at the i-th `Pop`. -/
-def workLoop (lister : List (String × JC)) (now : Int) (clk : Nat → Int) (maxCount : Int) :
+/-- the pop loop of `Work`: every `Pop` uses the tick's reference time `now`. -/
+def workLoop (lister : List (String × JC)) (now : Int) (maxCount : Int) :
+    Nat → Heap.PQ → List (String × Nat) → List (String × Int) →
+    Heap.PQ × List (String × Int) × Bool
+  | 0, heap, _, acc => (heap, acc.reverse, false)   -- fuel exhausted (reported)
+  | fuel + 1, heap, counts, acc =>
+    match schedPop heap now with
+    | none => (heap, acc.reverse, true)
+    | some (h1, key, ts) =>
+      let r := syncOne h1 lister now key ts counts maxCount
+      workLoop lister now maxCount fuel r.1 r.2.1
+        (match r.2.2 with | none => acc | some e => e :: acc)
+
+/-- `CronWorker.Work()` with the tick's `now`, cap `maxCount`, flush limit. -/
+def work (w : Worker) (now : Int) (maxCount : Int) (flushLimit fuel : Nat) :
+    Worker × List (String × Int) × Bool :=
+  let (h1, chan1) := refresh w.heap w.lister w.chan now flushLimit
+  let (h2, fired, done) := workLoop w.lister now maxCount fuel h1 [] []
+  ({ w with heap := h2, chan := chan1 }, fired, done)
+
+/-- the pop loop as it was before the fix "pop due cron schedules using the tick's reference
+time": the i-th `Pop` read the clock again (`clk i`).  Kept for the livelock witness. -/
+def workLoopDrifting (lister : List (String × JC)) (now : Int) (clk : Nat → Int) (maxCount : Int) :
     Nat → Nat → Heap.PQ → List (String × Nat) → List (String × Int) →
     Heap.PQ × List (String × Int) × Bool
-  | 0, _, heap, _, acc => (heap, acc.reverse, false)   -- fuel exhausted (reported)
+  | 0, _, heap, _, acc => (heap, acc.reverse, false)
   | fuel + 1, i, heap, counts, acc =>
     match schedPop heap (clk i) with
     | none => (heap, acc.reverse, true)
     | some (h1, key, ts) =>
       let r := syncOne h1 lister now key ts counts maxCount
-      workLoop lister now clk maxCount fuel (i + 1) r.1 r.2.1
+      workLoopDrifting lister now clk maxCount fuel (i + 1) r.1 r.2.1
         (match r.2.2 with | none => acc | some e => e :: acc)
-
-/-- `CronWorker.Work()` with the tick's `now`, per-pop clock `clk`, cap `maxCount`, flush limit. -/
-def work (w : Worker) (now : Int) (clk : Nat → Int) (maxCount : Int) (flushLimit fuel : Nat) :
-    Worker × List (String × Int) × Bool :=
-  let (h1, chan1) := refresh w.heap w.chan now flushLimit
-  let (h2, fired, done) := workLoop w.lister now clk maxCount fuel 0 h1 [] []
-  ({ w with heap := h2, chan := chan1 }, fired, done)
 
 /-- Informer `UpdateFunc`: cache applied, then `handleUpdate` flushes iff the schedule specs differ. -/
 def onUpdate (w : Worker) (old new : JC) (updateRegistered : Bool) : Worker :=
